@@ -195,7 +195,8 @@ def pipeline_split(ctx, quick):
             od = os.path.join(root, "out_" + str(abs(hash(name)) % 10 ** 8))
             rc, log = P.run_isoquant(od, base + ["--bam"] + bams)
             return name, bams, od, rc, log
-        with ThreadPoolExecutor(8) as ex: res = list(ex.map(one, jobs))
+        res = [one(jobs[0])]                          # alone first: it also leaves the reference's .fai / .gzi next to the (shared) reference, see C20:shared-reference-index
+        with ThreadPoolExecutor(8) as ex: res += list(ex.map(one, jobs[1:]))
         ctx.cov["pipeline_runs"] += len(res)
         ref = None; nother = 0
         for name, bams, od, rc, log in res:
@@ -252,7 +253,8 @@ def pipeline_annotation(ctx, quick):
             od = os.path.join(root, "out_%d" % (abs(hash(name)) % 10 ** 8))
             rc, log = P.run_isoquant(od, base + ["--genedb", ann] + (["--complete_genedb"] if complete else []), home=home)
             return name, od, rc, log
-        with ThreadPoolExecutor(8) as ex: res = list(ex.map(one, confs))
+        res = [one(confs[0])]                         # alone first (reference index files are written next to the shared reference, see C20:shared-reference-index)
+        with ThreadPoolExecutor(8) as ex: res += list(ex.map(one, confs[1:]))
         # cached conversion: the same HOME again, another output folder -> the stored database is reused
         shared = os.path.join(root, "home_cache")
         for name, ann, complete in (("gtf.gz, --complete_genedb", gz, True), ("gtf, inferred", plain, False)):
